@@ -473,6 +473,10 @@ def driver(seed, count):
                 y = rnumber(rng, wide=False, maxdig=4)
             if rng.random() < 0.04:
                 y = dint(0)
+            if rng.random() < 0.2:        # very small / very large magnitudes (products of the operands leave the double range)
+                ex = rng.choice([-300, -250, -200, -150, -100, 100, 150, 200, 250])
+                x = mkdec(rng.random() < 0.5, rdigits(rng, rng.choice([1, 2, 4])), ex)
+                y = mkdec(rng.random() < 0.5, rdigits(rng, rng.choice([1, 2, 4])), ex + rng.choice([-12, -5, -1, 0, 1, 5, 10, 12]))
             emit('MOD', [x, y])
         elif k < 0.77:
             f = rng.choice(['POWER', 'OP_POW'])
